@@ -79,6 +79,7 @@ def read_out(path):
     return starts, results
 
 
+BATCH_FILES = [0]  # output files are unique across the batches of one invocation
 STALL_S = 150  # a worker whose output has not grown for this long is stuck: dumped, killed and reported (exit 2)
 
 
@@ -108,8 +109,9 @@ def run_batch(binpath, scratch, prop, tier, seed0, total, legs, wall_budget, ext
             if count <= 0:
                 continue
             gen += 1
-            outp = os.path.join(scratch, "out-%d-%d.jsonl" % (w, gen))
-            errp = os.path.join(scratch, "err-%d-%d.txt" % (w, gen))
+            BATCH_FILES[0] += 1
+            outp = os.path.join(scratch, "out-%d-%d-%d.jsonl" % (w, gen, BATCH_FILES[0]))
+            errp = os.path.join(scratch, "err-%d-%d-%d.txt" % (w, gen, BATCH_FILES[0]))
             env = build.goenv({
                 "SIM_MODE": "batch", "SIM_SEED0": str(seed0), "SIM_FIRST": str(first), "SIM_STRIDE": str(nw),
                 "SIM_COUNT": str(count), "SIM_TIER": tier, "SIM_OUT": outp, "SIM_REPLAY_DIR": rdir,
@@ -216,6 +218,10 @@ def replay_once(binpath, scratch, rf, want_log=False, timeout=120):
 
 
 KNOWN_CTX = {"known": [], "prop": None}
+
+
+def is_tierb(leg):
+    return leg.startswith("quic/")
 
 
 def classes_of(res, crashed, err):
@@ -388,7 +394,28 @@ def _main(args, prop, cfg, tier, seed0, t0, scratch):
 
     total = args.runs or cfg["runs"][tier]
     budget = cfg.get("budget", {"quick": 240, "thorough": 3600})[tier]
-    results, crashes, timed_out = run_batch(binpath, scratch, prop, tier, seed0, total, legs, budget, extra_env=cfg.get("env"), one_per_process=cfg.get("one_per_process", False), stall_s=cfg.get("stall_s"))
+    # Tier B legs (third-party goroutines, real clock) leave goroutines behind: they run in a batch
+    # of their own, one run per process
+    tb = cfg.get("tierb")
+    tb_legs = [l for l in legs if is_tierb(l)]
+    legs = [l for l in legs if not is_tierb(l)]
+    if tb and not args.legs:
+        tb_legs = list(tb["legs"])
+    results, crashes, timed_out = [], [], False
+    if legs:
+        results, crashes, timed_out = run_batch(binpath, scratch, prop, tier, seed0, total, legs, budget, extra_env=cfg.get("env"), one_per_process=cfg.get("one_per_process", False), stall_s=cfg.get("stall_s"))
+        for c in crashes:
+            c["legs"] = list(legs)
+    if tb_legs:
+        n2 = args.runs if (args.runs and args.legs) else (tb or {"runs": {tier: total}})["runs"][tier]
+        b2 = (tb or {"budget": {tier: budget}})["budget"][tier]
+        r2, c2, t2 = run_batch(binpath, scratch, prop, tier, seed0, n2, tb_legs, b2, extra_env=cfg.get("env"), one_per_process=True, stall_s=240)
+        for c in c2:
+            c["legs"] = tb_legs
+        results += r2
+        crashes += c2
+        timed_out = timed_out or t2
+        legs = legs + tb_legs
     wall_runs = time.time() - t0
     known = [] if args.ignore_known else load_known()
 
@@ -437,7 +464,7 @@ def _main(args, prop, cfg, tier, seed0, t0, scratch):
         elif "crash" in r:
             # regenerate the decision list by replaying the seed in generation mode is not
             # possible after a crash; replay by seed instead
-            rf = {"prop": prop, "leg": leg, "seed": r["seed"], "tier": tier, "decisions": [], "by_seed": True, "k": r["k"], "seed0": seed0, "legs": legs}
+            rf = {"prop": prop, "leg": leg, "seed": r["seed"], "tier": tier, "decisions": [], "by_seed": True, "k": r["k"], "seed0": seed0, "legs": r["crash"].get("legs") or legs}
         else:
             # a violation without its replay file must never be dropped silently
             missing.append((leg, cls, r.get("seed")))
